@@ -37,6 +37,7 @@ class ElementwiseConstraint(Constraint):
         self.lhs = lhs
         self.rhs = rhs
         self.initial_operator = operator
+        self.linearized_expr = None  # set by the compiler: "expr" with epigraph variables in place of nonlinear atoms
         name_str = 'Elementwise[%s] : ' % str(self.id)
         self.name = name_str
         if operator == '==':
@@ -74,6 +75,8 @@ class ElementwiseConstraint(Constraint):
                 all_vars.append(v)
         # Look for epigraph variables
         expr_vars = self.expr.variables()
+        if self.linearized_expr is not None:
+            expr_vars = expr_vars + self.linearized_expr.variables()
         for v in expr_vars:
             if id(v) not in all_vars_ids:
                 all_vars_ids.add(id(v))
@@ -107,7 +110,8 @@ class ElementwiseConstraint(Constraint):
         # primitive cones are the zero cone and R_+.
         if not self.epigraph_checked:
             raise RuntimeError('Cannot canonicalize without check for epigraph substitution.')
-        m = self.expr.size
+        expr = self.expr if self.linearized_expr is None else self.linearized_expr
+        m = expr.size
         b = np.empty(shape=(m,))
         if self.operator == '==':
             K = [Cone('0', m)]
@@ -116,7 +120,7 @@ class ElementwiseConstraint(Constraint):
         else:
             raise RuntimeError('Unknown operator.')
         A_rows, A_cols, A_vals = [], [], []
-        for i, se in enumerate(self.expr.flat):
+        for i, se in enumerate(expr.flat):
             if len(se.atoms_to_coeffs) == 0:
                 b[i] = -se.offset
                 A_rows.append(i)
